@@ -411,3 +411,55 @@ def replay_step(m):
     expected = [TieredTime(reply, *([0] * (len(cs) - 1)))] if kind == "int" and reply < until else []
     ok = sim.next_steps == expected and sim.last_step == cs
     return ok, desc + f"next_steps = {sim.next_steps!r}, expected {expected!r}; last_step = {sim.last_step!r}"
+
+
+def replay_sim_process_begin(m):
+    """native replay of the BEGIN part of sim_process for grouped (tiered) times: a single simulator
+    whose next step is settled at the given tiered time; the same-time loop guard must raise a
+    SimulationError naming the simulator IFF some sub-step tier has reached max_loop_iterations,
+    otherwise the step must be performed at exactly that time (C09, C02)."""
+    import mosaik
+    from mosaik import scheduler
+    from mosaik.exceptions import SimulationError
+    from mosaik.progress import Progress
+    from mosaik.simmanager import SimRunner
+    from mosaik.tiered_time import TieredTime
+    from tqdm import tqdm
+    case = m.get("native_case")
+    if case is None:
+        return True, "no native case in the model (symbolic counter-models of sim_process are not replayed)"
+    cs = TieredTime(*case["current_step"])
+    bound = case["max_loop_iterations"]
+    stepped = []
+
+    class P(_StubProxy):
+        async def send(self, request):
+            if request[0] == "step":
+                stepped.append(request[1][0])
+            return None
+
+    world = mosaik.World({}, skip_greetings=True, max_loop_iterations=bound)
+    world.until = cs.time + 1
+    world.rt_factor = None
+    world.tqdm = tqdm(disable=True)
+    sim = SimRunner("S-0", P("event-based"), depth=len(cs))
+    sim.tqdm = tqdm(disable=True)
+    world.sims["S-0"] = sim
+    sim.next_steps = [cs]
+    sim.progress = Progress(cs)
+    err = None
+    try:
+        world.loop.run_until_complete(scheduler.sim_process(world, sim, world.until, None, False, True))
+    except SimulationError as e:
+        err = e
+    finally:
+        world.loop.close()
+    must_stop = any(t >= bound for t in cs.tiers[1:])
+    desc = f"sim_process with settled step {cs!r}, max_loop_iterations={bound}: "
+    if must_stop:
+        ok = err is not None and "S-0" in str(err) and not stepped
+        return ok, desc + (f"SimulationError naming the simulator: {'S-0' in str(err)}" if err else
+                           f"NOT stopped although a sub-step tier has reached the bound; stepped at {stepped}")
+    ok = err is None and stepped == [cs.time]
+    return ok, desc + (f"stopped by {str(err)[:100]} although every sub-step tier is below the bound" if err
+                       else f"stepped at {stepped}")
